@@ -2,3 +2,4 @@ import HoloModel.Scalar
 import HoloModel.IO
 import HoloModel.Rigid
 import HoloModel.Fourier
+import HoloModel.ImgProc
